@@ -118,7 +118,16 @@ pub fn split_sentinel(out: &[u8]) -> Vec<Vec<u8>> {
 /// Write the source into `dir` and obtain its message sequence. Text: generator-known truth.
 /// Fixedstruct / shipped journal / evtx: a single-source run of s4 (metamorphic reference).
 pub fn materialize(i: usize, s: &Source, dir: &Path, tmp: &Path, tz: &str) -> Result<Materialized, String> {
-    let (name, member) = source_name(i, s);
+    materialize_named(i, s, dir, tmp, tz, None)
+}
+
+/// like `materialize` with a caller-chosen file stem (the type suffix is kept)
+pub fn materialize_named(i: usize, s: &Source, dir: &Path, tmp: &Path, tz: &str, stem: Option<&str>) -> Result<Materialized, String> {
+    let (mut name, member) = source_name(i, s);
+    if let Some(st) = stem {
+        let suffix = name.splitn(2, '.').nth(1).unwrap_or("log").to_string();
+        name = format!("{}.{}", st, suffix);
+    }
     match s {
         Source::Text { log, codec } => {
             let r = log.render();
